@@ -420,8 +420,12 @@ pub fn run_op(op: &str, fields: &[Vec<u8>]) -> OpResult {
         }
         "mp.roundtrip" => {
             let gen_boundary = f.string();
-            let parse_boundary = f.string();
+            let mut parse_boundary = f.string();
             let parts = read_parts(&mut f);
+            // "CT:<content type>": the boundary travels as the Content-Type parameter, like in a real request
+            if let Some(ct) = parse_boundary.clone().strip_prefix("CT:") {
+                parse_boundary = FormMultipartData::extract_boundary(ct)?;
+            }
             let generated = FormMultipartData::generate(parts, &gen_boundary)?;
             let mut o = Out::new();
             o.b(&generated);
